@@ -163,6 +163,54 @@ def run(ctx) -> None:
         rep.add("C07.R1", f"{ci.name}.{m.name}", not bad, m.loc(), f"no write through the receiver ({len(effs)} memo site(s) allowed)" if not bad else f"the receiver is modified: {fmt_effect(bad[0][0])} {bad[0][1]}")
 
     # ---- R2 ---------------------------------------------------------------------
+    check_copy_freshness(ctx, "C07.R2")
+
+    # ---- R3 ---------------------------------------------------------------------
+    check_cache_invalidation(ctx, "C07.R3", E=E)
+
+    # ---- R4 ---------------------------------------------------------------------
+    for ci, m in derivs:
+        rets = [n for n in walk_local(m.node) if isinstance(n, ast.Return)]
+        ok = bool(rets)
+        why = "returns the clone / a new object"
+        for r in rets:
+            v = r.value
+            if isinstance(v, ast.Name) and v.id == "self":
+                # exemption: add_nodes() with no arguments
+                g = enclosing(r, (ast.If,))
+                if m.name == "add_nodes" and g is not None and src(g.test) == "not nodes":
+                    continue
+                ok, why = False, f"returns the receiver itself at line {r.lineno}"
+            elif isinstance(v, ast.Name):
+                defs = db.local_defs(m).get(v.id, [])
+                if not defs or not all(isinstance(d, ast.Assign) and isinstance(d.value, ast.Call) for d in defs):
+                    ok, why = False, f"returned value '{v.id}' is not the result of a copy/constructor call"
+            elif not isinstance(v, ast.Call):
+                ok, why = False, f"returns '{src(v)[:40]}'"
+        rep.add("C07.R4", f"{ci.name}.{m.name}", ok, m.loc(), why)
+    for ci in classes:
+        h = _copy_helper(db, ci)
+        if h is None:
+            continue
+        cc = [n for n in walk_local(h.node) if isinstance(n, ast.Assign) and isinstance(n.value, ast.Call) and dotted(n.value.func) == "copy.copy" and n.value.args and src(n.value.args[0]) == "self"]
+        rets = [n for n in walk_local(h.node) if isinstance(n, ast.Return)]
+        ok = len(cc) == 1 and all(isinstance(r.value, ast.Name) and r.value.id == cc[0].targets[0].id for r in rets)
+        rep.add("C07.R4", f"{ci.name}:{h.cls.name}.{h.name}", ok, h.loc(), "copy helper returns copy.copy(self)" if ok else "copy helper does not return a fresh copy.copy(self)")
+
+
+
+def _copy_helper(db, ci: ClassInfo) -> FuncInfo | None:
+    if ci is db.cls("graph.core.Graph"):
+        return ci.methods.get("_shallow_copy")
+    return ci.find_method("_copy")
+
+
+def check_copy_freshness(ctx, rule: str, only_attrs: tuple[str, ...] | None = None) -> None:
+    """R2 of C07, reusable (C06 uses it for the rename history)."""
+    db, rep = ctx.db, ctx.rep
+    graph_cls = db.cls("graph.core.Graph")
+    classes = [graph_cls] + [c for c in node_classes(db) if not c.node.name.startswith("_")]
+    # ---- R2 ---------------------------------------------------------------------
     # in-place mutation sites by attribute name, whole package
     mut_sites: dict[str, list[tuple[FuncInfo, ast.AST]]] = {}
     scope = db.all_funcs()
@@ -238,51 +286,21 @@ def run(ctx) -> None:
             continue
         fresh = fresh_attrs(h)
         for a, why in sorted(mutable_attrs(ci).items()):
+            if only_attrs is not None and a not in only_attrs:
+                continue
             n_r2 += 1
             if a in fresh:
-                rep.ok("C07.R2", f"{ci.name}.{a}", h.loc(), f"{why}: {h.cls.name}.{h.name} gives the copy a fresh container")
+                rep.ok(rule, f"{ci.name}.{a}", h.loc(), f"{why}: {h.cls.name}.{h.name} gives the copy a fresh container")
                 continue
             sites = [(f, n) for f, n in mut_sites.get(a, []) if not (f.name == "__init__" or f.name.startswith("_build") or f.name.startswith("_add_"))]
             # sites that mutate a container which was just made fresh on that object are fine only if fresh (handled above)
             if not sites:
-                rep.ok("C07.R2", f"{ci.name}.{a}", h.loc(), f"{why}: shared by copies, but never mutated in place after construction")
+                rep.ok(rule, f"{ci.name}.{a}", h.loc(), f"{why}: shared by copies, but never mutated in place after construction")
             else:
                 f, n = sites[0]
-                rep.bad("C07.R2", f"{ci.name}.{a}", h.loc(), f"{why}: {h.cls.name}.{h.name} shares this container between receiver and copy, and {f.qname.split('hypergraph.')[-1]}:{n.lineno} mutates it in place — a derived object changes its ancestor and siblings")
-    if n_r2 < 8:
-        raise AnalysisError(f"only {n_r2} mutable attributes enumerated")
-
-    # ---- R3 ---------------------------------------------------------------------
-    check_cache_invalidation(ctx, "C07.R3", E=E)
-
-    # ---- R4 ---------------------------------------------------------------------
-    for ci, m in derivs:
-        rets = [n for n in walk_local(m.node) if isinstance(n, ast.Return)]
-        ok = bool(rets)
-        why = "returns the clone / a new object"
-        for r in rets:
-            v = r.value
-            if isinstance(v, ast.Name) and v.id == "self":
-                # exemption: add_nodes() with no arguments
-                g = enclosing(r, (ast.If,))
-                if m.name == "add_nodes" and g is not None and src(g.test) == "not nodes":
-                    continue
-                ok, why = False, f"returns the receiver itself at line {r.lineno}"
-            elif isinstance(v, ast.Name):
-                defs = db.local_defs(m).get(v.id, [])
-                if not defs or not all(isinstance(d, ast.Assign) and isinstance(d.value, ast.Call) for d in defs):
-                    ok, why = False, f"returned value '{v.id}' is not the result of a copy/constructor call"
-            elif not isinstance(v, ast.Call):
-                ok, why = False, f"returns '{src(v)[:40]}'"
-        rep.add("C07.R4", f"{ci.name}.{m.name}", ok, m.loc(), why)
-    for ci in classes:
-        h = copy_helper(ci)
-        if h is None:
-            continue
-        cc = [n for n in walk_local(h.node) if isinstance(n, ast.Assign) and isinstance(n.value, ast.Call) and dotted(n.value.func) == "copy.copy" and n.value.args and src(n.value.args[0]) == "self"]
-        rets = [n for n in walk_local(h.node) if isinstance(n, ast.Return)]
-        ok = len(cc) == 1 and all(isinstance(r.value, ast.Name) and r.value.id == cc[0].targets[0].id for r in rets)
-        rep.add("C07.R4", f"{ci.name}:{h.cls.name}.{h.name}", ok, h.loc(), "copy helper returns copy.copy(self)" if ok else "copy helper does not return a fresh copy.copy(self)")
+                rep.bad(rule, f"{ci.name}.{a}", h.loc(), f"{why}: {h.cls.name}.{h.name} shares this container between receiver and copy, and {f.qname.split('hypergraph.')[-1]}:{n.lineno} mutates it in place — a derived object changes its ancestor and siblings")
+    if n_r2 < (8 if only_attrs is None else 1):
+        raise AnalysisError(f"only {n_r2} mutable attributes enumerated for {rule}")
 
 
 
